@@ -11,7 +11,7 @@ Plan plan() { return g_cfg.tier ? Plan{5, 240, 10} : Plan{1, 48, 5}; }
 struct Layout { size_t nReal, nSyn, nApi; size_t total() const { return nReal + nSyn + nApi; } };
 Layout layout() {
 	Plan p = plan();
-	return {realSamples().size(), typeDB().names.size() * (size_t)NVERS * (size_t)p.synSeeds, (size_t)p.apiModels};
+	return {realSamples().size(), typeDB().names.size() * ((size_t)NVERS * (size_t)p.synSeeds + (size_t)NXVERS * (g_cfg.tier ? 2 : 1)), (size_t)p.apiModels};
 }
 
 enum Op { OP_SORT, OP_OPTIMIZE, OP_PRUNE, OP_SAVE, OP_ORDER };
@@ -214,9 +214,12 @@ void run(size_t idx) {
 	idx -= l.nReal;
 	if (idx < l.nSyn) {
 		const TypeDB& db = typeDB();
-		size_t per = db.names.size() * (size_t)NVERS;
-		size_t it = idx / per, rest = idx % per;
-		const VerInfo& v = VERS[rest / db.names.size()];
+		// the 14 main versions x seeds, then the extra Fallout 3 range streams (every stream value a Sync gate compares against)
+		size_t per = db.names.size() * (size_t)NVERS, nMain = per * (size_t)plan().synSeeds;
+		size_t it, rest;
+		if (idx < nMain) { it = idx / per; rest = idx % per; }
+		else { size_t perX = db.names.size() * (size_t)NXVERS; it = (idx - nMain) / perX; rest = per + (idx - nMain) % perX; }
+		const VerInfo& v = verAt(rest / db.names.size());
 		const std::string& name = db.names[rest % db.names.size()];
 		uint64_t seed = mix(mix(g_cfg.seed ^ 0xC04, hashStr(name)), (rest / db.names.size()) * 1000 + it);
 		SynthOpts so;
